@@ -235,6 +235,7 @@ def base_streams() -> Dict[str, List[Tuple[int, bytes]]]:
     s["2ids-interleaved"] = [a[0], b[0], a[1], b[1], a[2], b[2]]
     s["SF,FF+2CF"] = [(RX, f) for f in segment(pattern(3, 7), 8, None) + segment(pattern(16, 8), 8, None)]
     s["FF+2CF,FF+2CF"] = [(RX, f) for f in segment(pattern(17, 9), 8, None) + segment(pattern(18, 10), 8, 0x55)]
+    s["FF+41CF"] = [(RX, f) for f in segment(pattern(6 + 7 * 40 + 5, 11), 8, 0xAA)]  # 291 bytes: the announced length needs its high nibble
     return s
 
 
@@ -242,7 +243,7 @@ def base_payloads() -> Dict[str, Dict[int, List[bytes]]]:
     """What each base stream transfers per ID (same arguments as in base_streams)."""
     return {"SF": {RX: [pattern(5)]}, "FF+2CF": {RX: [pattern(18, 3)]}, "FF+17CF": {RX: [pattern(6 + 7 * 16 + 3, 4)]},
             "2ids-interleaved": {RX: [pattern(18, 5)], RX2: [pattern(15, 6)]}, "SF,FF+2CF": {RX: [pattern(3, 7), pattern(16, 8)]},
-            "FF+2CF,FF+2CF": {RX: [pattern(17, 9), pattern(18, 10)]}}
+            "FF+2CF,FF+2CF": {RX: [pattern(17, 9), pattern(18, 10)]}, "FF+41CF": {RX: [pattern(6 + 7 * 40 + 5, 11)]}}
 
 
 def fault_menu(stream: List[Tuple[int, bytes]], pos: int) -> List[Tuple[str, List[Tuple[int, bytes]]]]:
@@ -423,6 +424,8 @@ def run(ctx: Ctx) -> None:
     units: List[Tuple[Any, ...]] = []
     for k in (0, 1, 2):
         for n in streams:
+            if k == 2 and n == "FF+41CF":
+                continue  # (42 frames: single faults only)
             ns = 32 if (k == 2 and len(streams[n]) > 10) else (4 if k == 2 else 1)
             for variant in VARIANTS:
                 if variant != "plain" and k == 2 and (ctx.quick or len(streams[n]) > 10):
